@@ -303,6 +303,95 @@ pub fn run_conc(ctx: &Ctx, case: &CCase) -> Result<Outcome, String> {
     Ok(out)
 }
 
+// ------------------------------------------------------------------ replicated part (cluster simulator)
+
+#[derive(Clone, Debug, Serialize, Deserialize)]
+pub struct RCase {
+    pub n: usize,
+    pub writes: Vec<Wr>,
+    /// whether the cluster becomes quiet after write i before the next one
+    pub settle: Vec<bool>,
+    pub schedule: Vec<u16>,
+}
+
+pub fn run_repl(ctx: &Ctx, case: &RCase) -> Outcome {
+    use crate::props::c04::{boot_cluster, chooser};
+    let scratch = ctx.fresh_dir();
+    let mut c = match boot_cluster(&scratch, case.n) {
+        Ok(c) => c,
+        Err(e) => {
+            ctx.drop_dir(&scratch);
+            return Outcome::failed("C19|set-up", e);
+        }
+    };
+    let auth = format!("auth {} {}", crate::node::USER, crate::node::PWD);
+    c.client(0, vec![auth.clone(), "create-db c ctok newer".into(), "use-db c ctok".into(), "set k k0".into(), "set k k1".into(), "set j j0".into()]);
+    let mut fail: Option<(String, String)> = None;
+    if !c.run(&mut |_| 0, 400_000) {
+        fail = Some(("C19|set-up".into(), "no quiescence after set-up".into()));
+    }
+    let mut choose = chooser(case.schedule.clone());
+    let mut stale = false;
+    let mut in_flight = 0;
+    if fail.is_none() {
+        for (i, wr) in case.writes.iter().enumerate() {
+            let (k, delta) = match wr {
+                Wr::Plain { k } => (*k, None),
+                Wr::Versioned { k, delta } | Wr::Api { k, delta } => (*k, Some(*delta)),
+            };
+            let key = KEYS[k];
+            let cur = c.nodes[0].node.as_ref().unwrap().dump().get("c").and_then(|m| m.get(key).map(|v| v.1)).unwrap_or(0);
+            let line = match delta {
+                None => format!("set {} r{}", key, i),
+                Some(d) => {
+                    if d < 0 {
+                        stale = true;
+                    }
+                    format!("set-safe {} {} r{}", key, (cur + d).max(0), i)
+                }
+            };
+            let out = c.client(0, vec![auth.clone(), "use-db c ctok".into(), line.clone()]);
+            if out.last().map(|o| o.starts_with("Error") || o.starts_with("VersionError")).unwrap_or(false) {
+                fail = Some(("C19|refused|replicated".into(), format!("{:?} on the primary: {:?}", line, out.last())));
+                break;
+            }
+            if case.settle.get(i).cloned().unwrap_or(true) {
+                if !c.run(&mut choose, 400_000) {
+                    fail = Some(("C19|no-quiescence".into(), format!("after {:?}", line)));
+                    break;
+                }
+            } else {
+                in_flight += 1;
+            }
+        }
+    }
+    if fail.is_none() && !c.run(&mut choose, 400_000) {
+        fail = Some(("C19|no-quiescence".into(), "at the end".into()));
+    }
+    if fail.is_none() && !c.panics.is_empty() {
+        fail = Some((format!("C19|panic|{}", c.panics[0].chars().skip(3).take(50).collect::<String>()), format!("{:?}", c.panics)));
+    }
+    if fail.is_none() {
+        let p = c.nodes[0].node.as_ref().unwrap().dump();
+        for i in 1..case.n {
+            let d = c.nodes[i].node.as_ref().unwrap().dump();
+            for key in KEYS {
+                let pv = p.get("c").and_then(|m| m.get(key)).map(|v| v.0.clone());
+                let iv = d.get("c").and_then(|m| m.get(key)).map(|v| v.0.clone());
+                if pv != iv {
+                    fail = Some((format!("C19|replica-differs|{}", if in_flight > 0 { "writes-in-flight-together" } else { "one-write-at-a-time" }), format!("key {}: primary {:?}, n{} {:?}; trace tail {:?}", key, pv, i, iv, c.trace_tail(20))));
+                }
+            }
+        }
+    }
+    drop(c);
+    ctx.drop_dir(&scratch);
+    let mut out = Outcome::ok(stale);
+    out.classes.push("replicated");
+    out.fail = fail;
+    out
+}
+
 fn guard(ctx: &Ctx, c: &CCase) -> Outcome {
     match run_conc(ctx, c) {
         Ok(o) => o,
@@ -321,12 +410,18 @@ pub fn run(ctx: &Ctx, rep: &mut Report) {
     let n2 = ctx.amount(10_000, 150_000);
     let cc = (dbk(), prop::collection::vec(prop::collection::vec(wr_strategy(false), 1..4), 2..3), prop::collection::vec(prop_oneof![3 => Just(0u16), 2 => any::<u16>()], 0..50)).prop_map(|(db, clients, schedule)| CCase { db, clients, schedule });
     explore(ctx, rep, "concurrent", n2, cc, |c| guard(ctx, c));
+    let n3 = ctx.amount(480, 12_000);
+    let rc = (2..4usize, prop::collection::vec((wr_strategy(false), prop::bool::weighted(0.5)), 1..7), prop::collection::vec(prop_oneof![3 => Just(0u16), 1 => any::<u16>()], 0..50))
+        .prop_map(|(n, ws, schedule)| RCase { n, writes: ws.iter().map(|w| w.0.clone()).collect(), settle: ws.iter().map(|w| w.1).collect(), schedule });
+    crate::report::explore_with(ctx, rep, "replicated", n3, 150, rc, |c| run_repl(ctx, c));
 }
 
 pub fn replay(ctx: &Ctx, engine: &str, case: &J) -> Result<Option<(String, String)>, String> {
     crate::interpose::virtual_clock(true);
     if engine == "sequential" {
         replay_guarded::<Case>(ctx, case, |c| run_seq(ctx, c))
+    } else if engine == "replicated" {
+        replay_guarded::<RCase>(ctx, case, |c| run_repl(ctx, c))
     } else {
         replay_guarded::<CCase>(ctx, case, |c| guard(ctx, c))
     }
